@@ -193,6 +193,17 @@ def build(case, full, budget=None, G=None, extra=None):
     sim = case['sim']
     if G is None:
         G = oracles.build_graph(case['gc'])
+        if case.get('as_view'):
+            # the contact network is a read-only subgraph view of a larger population (G.subgraph(nodes)): same nodes, edges and attributes
+            big = G.copy()
+            outside = [('outside', k) for k in range(2)]
+            big.add_nodes_from(outside)
+            for k, u in enumerate(list(G.nodes())[:3]):
+                big.add_edge(outside[k % 2], u, **{lab: 1.0 for lab in (case['gc'].get('ew') or {})})
+            for x in outside:
+                for lab in (case['gc'].get('nw') or {}):
+                    big.nodes[x][lab] = 1.0
+            G = big.subgraph(list(G.nodes()))
     I0 = [oracles.tolabel(u) for u in case['I0']]
     R0 = [oracles.tolabel(u) for u in case.get('R0') or []]
     tmin, tmax = case['tmin'], tmax_of(case)
@@ -222,7 +233,10 @@ def build(case, full, budget=None, G=None, extra=None):
             kw['transmission_weight'] = case['ew']
         if case.get('nw') is not None:
             kw['recovery_weight'] = case['nw']
-        return f, [G, case['tau'], case['gamma']], kw
+        tau_, gamma_ = case['tau'], case['gamma']
+        if case.get('np_rates'):
+            tau_, gamma_ = np.float64(tau_), np.float64(gamma_)       # rates handed over as numpy scalars (e.g. read from an array)
+        return f, [G, tau_, gamma_], kw
     if sim in ('fast_nonMarkov_SIR', 'fast_nonMarkov_SIS'):
         trans, rec = make_rules(case, budget)
         if case['rule'].get('joint'):
@@ -342,6 +356,10 @@ def sim_case(draw, sims=SIMS, nmax=25, labels=('int', 'perm', 'str', 'tuple'), f
         case['sim_kwargs'] = True
     if draw(st.integers(0, 3)) == 0:
         case['omit_defaults'] = True
+    if draw(st.integers(0, 7)) == 0:
+        case['as_view'] = True
+    if sim in WEIGHTED and draw(st.integers(0, 5)) == 0:
+        case['np_rates'] = True
     if sim == 'discrete_SIR' and draw(st.integers(0, 2)) == 0:
         case['rec_steps'] = [draw(st.integers(1, 3)) for _ in nodes]
     if sim in ('fast_nonMarkov_SIR', 'fast_nonMarkov_SIS'):
@@ -381,7 +399,7 @@ def large_case(draw, sim):
     candidate 1500 times heavier than the rest: code paths that only switch on above a size or rejection-count threshold.
     The graph is a pure function of a few drawn integers (too big to draw edge by edge)."""
     case = draw(sim_case(sims=[sim], nmax=4))
-    n = draw(st.sampled_from([70, 100, 150]))
+    n = draw(st.sampled_from([70, 100, 150, 400]))
     shape = draw(st.sampled_from(['star', 'double-star', 'complete', 'hub-ring', 'sparse+hub', 'path']))
     R = random.Random(draw(st.integers(0, 10 ** 6)))
     if shape == 'complete':
